@@ -158,7 +158,7 @@ func drawConc(t *rapid.T) ConcCase {
 
 var specConc = pbt.Register(pbt.Spec[ConcCase]{
 	Prop: "C17", Name: "concurrent-logging",
-	Rule: "2-6 goroutines each issue 1-60 calls over the 12 logging methods with goroutine-private 10-byte ids (<= 21 per goroutine), messages up to 9 KB, generated level and interval (0 or >= 1 h), virtual clock delta fixed at noon; oracle (sound for any schedule): the single log file holds exactly the lines the level gate and the per-id limiter accept, each whole and alone on its line, each goroutine's lines in its call order; non-trivial = >= 2 goroutines with on average >= 2 accepted lines; distinct by case",
+	Rule:  "2-6 goroutines each issue 1-60 calls over the 12 logging methods with goroutine-private 10-byte ids (<= 21 per goroutine), messages up to 9 KB, generated level and interval (0 or >= 1 h), virtual clock delta fixed at noon; oracle (sound for any schedule): the single log file holds exactly the lines the level gate and the per-id limiter accept, each whole and alone on its line, each goroutine's lines in its call order; non-trivial = >= 2 goroutines with on average >= 2 accepted lines; distinct by case",
 	Quick: 400, Thorough: 12000,
 	Draw: drawConc,
 	Run:  runConc,
